@@ -114,6 +114,26 @@ class TrustingWorker(Entity):
         return [self.forward(event, self.downstream)]
 
 
+class InstantWorker(Entity):
+    """A worker whose work takes no simulated time (a stamper, a counter): the handler is not a generator and,
+    without a downstream, leaves no event behind at all."""
+
+    def __init__(self, name, downstream):
+        super().__init__(name)
+        self.downstream = downstream
+        self.active = 0
+        self.done = 0
+
+    def has_capacity(self) -> bool:
+        return True
+
+    def handle_event(self, event):
+        self.done += 1
+        if self.downstream is None:
+            return None
+        return [self.forward(event, self.downstream)]
+
+
 class RenegingPool(RenegingQueuedResource):
     """RenegingQueuedResource subclass after examples/industrial/call_center.py"""
 
@@ -368,7 +388,7 @@ class Stage:
     def on_time_advance(self, prev_ns):
         pass
 
-    def at_end(self, t_ns):
+    def at_end(self, t_ns, lenient=False):
         self.on_time_advance(t_ns)
 
     def abstract(self) -> str:
@@ -396,6 +416,8 @@ class QRStage(Stage):
         self.policy = policy
         self.pcls = policy_class(policy)
         self.weighted = False
+        self.instant = False
+        self.sinkless = False
         self.model = None
         self.shifts = None
         self.shift_events = 0
@@ -448,12 +470,20 @@ class QRStage(Stage):
         elif self.kind == "reneging":
             pat = cfg.get("patience_ticks")
             self.default_patience_ns = None if pat is None else pat * TICK_NS
+            if cfg.get("no_reneged_sink"):
+                extra_sink = None                    # reneged customers simply leave (reneged_target=None)
             self.F = RenegingPool(name, cfg["limit"], svc_of, downstream, extra_sink,
                                   float("inf") if pat is None else secs(pat), policy)
             self.cls = "RenegingQueuedResource"
             self.limit = cfg["limit"]
         elif self.kind == "driver":
-            self.W = TrustingWorker(f"{name}.worker", cfg["limit"], svc_of, downstream)
+            self.instant = svc["mode"] == "instant"
+            if self.instant:
+                self.sinkless = bool(cfg.get("sinkless"))
+                self.W = InstantWorker(f"{name}.worker", None if self.sinkless else downstream)
+                ctx.hit("probe.instant_worker")
+            else:
+                self.W = TrustingWorker(f"{name}.worker", cfg["limit"], svc_of, downstream)
             self.Q = Queue(name=f"{name}.queue", egress=None, policy=policy)
             self.D = QueueDriver(name=f"{name}.driver", queue=self.Q, target=self.W)
             self.Q.egress = self.D
@@ -486,6 +516,7 @@ class QRStage(Stage):
         self.expect_deliver: deque = deque()
         self.n_overpoll_reject = 0
         self.grace = False          # limit raised from outside the loop: stranding judged after the next trigger
+        self.end_lenient = False
         self._reset_instant()
 
     def _reset_instant(self):
@@ -543,6 +574,9 @@ class QRStage(Stage):
     def limit_after(self, t_ns):
         if self.kind != "shifted":
             return self.limit
+        if self.end_lenient:
+            # an auto-terminating run ended with (daemon) shift changes still pending: the schedule could not be applied
+            return min(self.sched_cap(t_ns), self.F.current_capacity)
         return self.sched_cap(t_ns)
 
     # ---- deliveries
@@ -699,6 +733,8 @@ class QRStage(Stage):
             ctx.hit("probe.reneged")
             if self.extra_sink is not None:
                 ctx.emit(rid, "reneged", self.cls)
+            else:
+                ctx.hit("probe.reneged_without_target")
         elif outcome == "rejected":
             if room:
                 raise V("conserve", self.cls, "dequeued-item-rejected-with-free-capacity",
@@ -724,6 +760,8 @@ class QRStage(Stage):
             self.starts.append(rid)
             self.f_start = True
             self.n_start_inst += 1
+            if self.instant:
+                self._continuation(ev)          # non-generator worker: served within this very delivery
         if self.comp_active() != self.active_w:
             raise V("conserve", self.cls, "in-service-count-ne-ledger",
                     f"component reports {self.comp_active()} in service, ledger {self.active_w}")
@@ -742,7 +780,8 @@ class QRStage(Stage):
         self.f_completion = True
         self._end_grace()
         self.inst.add("completion")
-        self.ctx.emit(rid, self.next_key, self.cls)
+        if not self.sinkless:
+            self.ctx.emit(rid, self.next_key, self.cls)
         if self.comp_active() != self.active_w:
             raise V("conserve", self.cls, "in-service-count-ne-ledger",
                     f"component reports {self.comp_active()} in service, ledger {self.active_w}")
@@ -847,7 +886,8 @@ class QRStage(Stage):
                             f"{self.active_w} of {limit} in service and the clock moves on")
         self._reset_instant()
 
-    def at_end(self, t_ns):
+    def at_end(self, t_ns, lenient=False):
+        self.end_lenient = lenient
         self.on_time_advance(t_ns)
         left = sorted(r for r, s in self.state.items() if s == "service")
         if left:
@@ -1001,7 +1041,7 @@ class PooledStage(Stage):
             raise V("strand", self.cls, "unit-free-with-backlog",
                     f"t={prev_ns}ns: {len(self.q)} queued while {self.avail} of {self.pool} units are free")
 
-    def at_end(self, t_ns):
+    def at_end(self, t_ns, lenient=False):
         self.on_time_advance(t_ns)
         left = sorted(r for r, s in self.state.items() if s == "service")
         if left:
@@ -1107,7 +1147,7 @@ class BatchStage(Stage):
             raise V("strand", self.cls, "partial-batch-past-timeout",
                     f"t={prev_ns}ns: oldest buffered item arrived at {self.first_t}ns, timeout {self.timeout} ticks")
 
-    def at_end(self, t_ns):
+    def at_end(self, t_ns, lenient=False):
         if len(self.buf) >= self.size:
             self.on_time_advance(t_ns)
         if self.buf and self.timeout > 0:
@@ -1189,7 +1229,7 @@ class ConveyorStage(Stage):
             self.max_active = max(self.max_active, len(self.on_belt))
         self._cross()
 
-    def at_end(self, t_ns):
+    def at_end(self, t_ns, lenient=False):
         if self.on_belt:
             raise V("conserve", self.cls, "in-service-never-completed", f"rids {sorted(self.on_belt)}")
 
@@ -1217,6 +1257,7 @@ class GateStage(Stage):
         # the schedule as the statement of intent: open at t iff t lies in some [open, close); transitions in the
         # order the documented API creates them (per interval: open, then close) for the sequential reading
         self.initial_open = self.is_open
+        self.end_lenient = False
         self.iv = [(tns(cfg, a), tns(cfg, b)) for a, b in cfg["schedule"]]
         self.tr = sorted([(lo, 2 * i, True) for i, (lo, _) in enumerate(self.iv)]
                          + [(hi, 2 * i + 1, False) for i, (_, hi) in enumerate(self.iv)])
@@ -1306,14 +1347,14 @@ class GateStage(Stage):
     def on_time_advance(self, prev_ns):
         if self.q:
             self.n_waited += 1
-        if self.q and not self.is_open and self.should_be_open(prev_ns) == {True}:
+        if self.q and not self.is_open and not self.end_lenient and self.should_be_open(prev_ns) == {True}:
             raise V("strand", self.cls, "closed-inside-a-scheduled-open-interval",
                     f"t={prev_ns}ns: {len(self.q)} queued behind a closed gate although the schedule "
                     f"{self.cfg['schedule']} has the gate open at this instant")
         if self.q and self.is_open:
             raise V("strand", self.cls, "open-gate-with-backlog", f"t={prev_ns}ns: {len(self.q)} queued, gate open")
 
-    def at_end(self, t_ns):
+    def at_end(self, t_ns, lenient=False):
         self.on_time_advance(t_ns)
         if self.q:
             self.ctx.hit("probe.held_at_end_by_contract")
@@ -1358,6 +1399,8 @@ class Pipeline:
             else:
                 raise InvalidScenario(f"stage kind {k}")
             st.next_key = idx + 1 if idx + 1 < len(cfgs) else "sink"
+            if getattr(st, "sinkless", False) and idx + 1 < len(cfgs):
+                raise InvalidScenario("only the last stage can be sinkless")
             self.stages[idx] = st
             downstream = st.front()
         # relays: hop h enters at relay[h] -> relay[h-1] -> ... -> stage 0
@@ -1476,11 +1519,15 @@ class Pipeline:
                 ctx.hit("fault.arrival_at_transition_instant")
             st.inst.clear()
 
-    def at_end(self):
+    def at_end(self, lenient=False):
+        """`lenient`: an auto-terminating run stopped with daemon (shift/gate) events still pending — the state they
+        would have produced at this very instant is not demanded"""
         self._instant_facts()
         t = self.ctx.now_ns
         for st in self.stages:
-            st.at_end(t)
+            if isinstance(st, GateStage):
+                st.end_lenient = lenient
+            st.at_end(t, lenient)
         self.ctx.check_instant_end(t)
 
 
